@@ -167,10 +167,17 @@ func zzH_C11_batch_root(t *zzT) {
 //zz:quick N=4 W=2
 //zz:thorough N=8 W=2
 func zzH_C11_reload(t *zzT) {
-	n := t.Range("n", 1, t.Param("N", 4))
+	n := t.Range("n", 0, t.Param("N", 4))
 	vals := zzLeaves(t, n+1)
 	tree, db := zzTree(t, vals[:n])
 	re, err := NewRegularMerkleTreeWithPastData(db)
+	if n == 0 {
+		// a store that never saw a leaf: the reload is either refused or yields THE empty tree (LIP-0031 empty root)
+		if err != nil {
+			t.Reach("end")
+			return
+		}
+	}
 	t.Assert(err == nil, "tree information is found after n >= 1 appends")
 	if err != nil {
 		return
